@@ -9,6 +9,7 @@ CONSTANTS
     TickSteps = {1}
     NProofs = 1
     TsChoices = {3}
+    FarChoices = {"near"}
     NonceIds = {1}
     ShareNonces = FALSE
     KidChoices = {"k1"}
